@@ -352,8 +352,38 @@ pub fn ref_info(s: &Scenario, r: &RunResult) -> RefInfo {
 
 const PAGER_VALUES: &[&str] = &["less", "less -FX", "less --some-flag", "mypager", "mypager --opt x", "more", "most", "nosuchpager", "otherpager -z"];
 
+/// Shell-like splitting (blanks; single and double quotes group), as delta does with shell_words.
 fn split_words(s: &str) -> Vec<String> {
-    s.split(' ').filter(|x| !x.is_empty()).map(|x| x.to_string()).collect()
+    let mut out = Vec::new();
+    let mut cur = String::new();
+    let mut in_word = false;
+    let mut quote: Option<char> = None;
+    for c in s.chars() {
+        match quote {
+            Some(q) if c == q => quote = None,
+            Some(_) => cur.push(c),
+            None => match c {
+                '\'' | '"' => {
+                    quote = Some(c);
+                    in_word = true;
+                }
+                ' ' | '\t' => {
+                    if in_word {
+                        out.push(std::mem::take(&mut cur));
+                        in_word = false;
+                    }
+                }
+                _ => {
+                    cur.push(c);
+                    in_word = true;
+                }
+            },
+        }
+    }
+    if in_word {
+        out.push(cur);
+    }
+    out
 }
 
 fn stub_exists(name: &str) -> bool {
@@ -1110,7 +1140,7 @@ pub fn explicit_cells(seed: u64) -> Vec<Scenario> {
     let tokens = body_tokens(&lines);
     let pg = |code: i32| PagerSetup { names: vec!["less".into(), "mypager".into(), "more".into(), "most".into(), "otherpager".into()], mode: "gate".into(), exit_code: code, less_version: "less 581.2 (PCRE2 regular expressions)".into() };
     // A. pager selection
-    let values: &[(&str, &str)] = &[("less-bare", "less"), ("less-args", "less -FX"), ("less-fullpath", "@BIN@/less"), ("less-fullpath-args", "@BIN@/less -X"), ("other", "mypager"), ("other-args", "mypager --opt x"), ("other-fullpath", "@BIN@/otherpager"), ("more", "more"), ("most", "most"), ("missing", "nosuchpager")];
+    let values: &[(&str, &str)] = &[("other-quoted-args", "mypager --opt 'x y' \"-z\""), ("less-quoted-args", "less '-F' \"-X\""), ("less-bare", "less"), ("less-args", "less -FX"), ("less-fullpath", "@BIN@/less"), ("less-fullpath-args", "@BIN@/less -X"), ("other", "mypager"), ("other-args", "mypager --opt x"), ("other-fullpath", "@BIN@/otherpager"), ("more", "more"), ("most", "most"), ("missing", "nosuchpager")];
     for source in ["--pager", "delta.pager", "DELTA_PAGER", "BAT_PAGER", "PAGER", "default"] {
         for (vclass, value) in values {
             if source == "default" && *vclass != "less-bare" {
